@@ -565,7 +565,7 @@ def rule_every_slot_visited(prog, fixture=False):
     r = RuleResult("R-C04-7", "every entry of the MMB table is examined: the loops around the FileView construction "
                    "run to constant bounds - their conditions read nothing that the loop body assigns (beyond the "
                    "counter), and nothing breaks or returns out of them - so a slot is attached wherever its own "
-                   "entry says so, whatever the entries before it hold", floor=0 if fixture else 2)
+                   "entry says so, whatever the entries before it hold", floor=0 if fixture else 1)
     for fn in prog.functions.values():
         if not (fn.qn.endswith("MmbFile::MmbFile") or (fixture and "mmb" in fn.name.lower())):
             continue
